@@ -36,7 +36,8 @@ structure GoodReg (nx ny : Nat) (regs : Nat → Nat) (r f : Nat) (cs : List (Lis
   inr : f < nx * ny
   reg : regs f = r
   first : ∀ p, p < f → regs p ≠ r
-  head : ∃ c0 rest, cs = c0 :: rest ∧ Est nx f ∈ c0
+  head : ∃ c0 rest, cs = c0 :: rest ∧ Est nx f ∈ c0 ∧
+    ∀ c ∈ rest, ∃ q, nx ≤ q ∧ q < nx * ny ∧ regs q ≠ r ∧ Wst nx (q - nx) ∈ c
   cyc : ∀ c ∈ cs, IsCyc (inRegion nx ny regs r) c
   nodup : cs.flatten.Nodup
 
